@@ -1,5 +1,6 @@
 import XmppVerif.Drv.Core
 import XmppVerif.Drv.C01
+import XmppVerif.Drv.C02
 import XmppVerif.Drv.Recv
 import XmppVerif.Drv.Neg
 import XmppVerif.Drv.C06
@@ -21,6 +22,7 @@ open XmppVerif.Drv
 
 def handlers : List (String × Handler) := [
   ("C01", XmppVerif.Drv.C01.handler),
+  ("C02", XmppVerif.Drv.C02.handler),
   ("C03", XmppVerif.Drv.Neg.handlerC03),
   ("C04", XmppVerif.Drv.Neg.handlerC04),
   ("C11", XmppVerif.Drv.Neg.handlerC11),
